@@ -595,7 +595,10 @@ impl Connection {
 
                 // Congestion control and pacing checks
                 // Tail loss probes must not be blocked by congestion, or a deadlock could arise
-                if ack_eliciting && self.spaces[space_id].loss_probes == 0 {
+                // A packet carrying only CONNECTION_CLOSE is not ack-eliciting, whatever is still
+                // queued: it must not wait for congestion or pacing budget that a closed
+                // connection (which no longer processes ACKs) will never regain.
+                if ack_eliciting && !close && self.spaces[space_id].loss_probes == 0 {
                     // Assume the current packet will get padded to fill the segment
                     let untracked_bytes = if let Some(builder) = &builder_storage {
                         buf_capacity - builder.partial_encode.start
